@@ -235,6 +235,21 @@ async def settle(n=12):
         await asyncio.sleep(0)
 
 
+async def start(gwy, patience=60.0):
+    """gwy.start(); for a gateway replaying a log, start() itself waits for the whole log to be read -- for ONE second of wall time, after which it
+    raises although the replay carries on.  On a loaded machine a long log takes longer: that is waited for here (the replay itself is what the
+    checks are about, not how fast this machine reads a file)."""
+    from ramses_tx.exceptions import TransportError  # noqa: PLC0415
+
+    try:
+        await gwy.start()
+    except TransportError as err:
+        fut = getattr(gwy._protocol, "_wait_connection_lost", None)
+        if "did not unbind" not in str(err) or fut is None:
+            raise
+        await asyncio.wait_for(asyncio.shield(fut), patience)
+
+
 async def make_gateway(lines, cfg=None, **config):
     """A Gateway that has replayed the lines (not stopped)."""
     from ramses_rf import Gateway  # noqa: PLC0415
@@ -243,7 +258,7 @@ async def make_gateway(lines, cfg=None, **config):
     cfg.setdefault("config", {}).update({"disable_discovery": True, **config})
     txt = "".join(ln + "\n" for ln in lines)
     gwy = Gateway(None, input_file=io.TextIOWrapper(io.BytesIO(txt.encode())), **cfg)
-    await gwy.start()
+    await start(gwy)
     await settle()
     return gwy
 
